@@ -18,6 +18,7 @@ import (
 	"context"
 	"fmt"
 	"sort"
+	"strings"
 	"time"
 
 	"github.com/sdcio/cache/pkg/cache"
@@ -234,6 +235,11 @@ func (c *localCache) ReadCh(ctx context.Context, name string, opts *Opts, paths 
 				if e == nil {
 					continue //
 				}
+				// config and state store keys are matched by their textual prefix, sort out
+				// the siblings that merely extend the requested name (eth1 vs. eth10)
+				if (opts.Store == cachepb.Store_CONFIG || opts.Store == cachepb.Store_STATE) && !underAnyPath(e.P, paths) {
+					continue
+				}
 				outCh <- &Update{
 					path:     e.P,
 					value:    e.V,
@@ -245,6 +251,27 @@ func (c *localCache) ReadCh(ctx context.Context, name string, opts *Opts, paths 
 		}
 	}()
 	return outCh
+}
+
+// underAnyPath reports if the path p is equal to or below one of the given paths, comparing element by element.
+// An element that contains a wildcard is left to the matching of the cache.
+func underAnyPath(p []string, paths [][]string) bool {
+	for _, prefix := range paths {
+		if len(prefix) > len(p) {
+			continue
+		}
+		match := true
+		for i, elem := range prefix {
+			if elem != p[i] && !strings.Contains(elem, "*") {
+				match = false
+				break
+			}
+		}
+		if match {
+			return true
+		}
+	}
+	return false
 }
 
 func (c *localCache) GetChanges(ctx context.Context, name, candidate string) ([]*Change, error) {
